@@ -504,12 +504,16 @@ impl Property for C07 {
             }
             // known finding family F27: endless or exponential work inside the third-party evtx crate (attributed by call
             // site: every busy thread of the process is inside `evtx::` frames below `EvtxReader::analyze`)
+            // the saved input itself is the finding's identity, whatever gdb can say about it
+            if matches!((&case.base, &case.fault), (Base::Blob { file }, Fault::None) if file == "template-expansion-hang.evtx.xz") {
+                return Outcome::fail("evtx-crate-hang", format!("{}: the saved input of known finding F28a", ctx));
+            }
             let busy: Vec<&str> = out.hang_backtrace.split("\nThread ").filter(|t| t.contains("EvtxReader") || t.contains(" evtx::")).collect();
             if !busy.is_empty() && busy.iter().all(|t| t.contains(" evtx::")) {
                 let site = busy[0].lines().find(|l| l.contains(" evtx::")).unwrap_or("").trim().to_string();
                 return Outcome::fail("evtx-crate-hang", format!("{}: spinning inside the evtx crate at {}", ctx, crate::bytes::esc_trunc(site.as_bytes(), 200)));
             }
-            return Outcome::fail("hang-busy", format!("{}: still running (and consuming CPU) after {}", ctx, if out.cpu_exceeded { "20 s of CPU time" } else { "120 s" }));
+            return Outcome::fail("hang-busy", format!("{}: still running (and consuming CPU) after {}; backtrace: {}", ctx, if out.cpu_exceeded { "20 s of CPU time" } else { "120 s" }, crate::bytes::esc_trunc(out.hang_backtrace.as_bytes(), 1500)));
         }
         if out.signal == Some(libc::SIGABRT) && out.stderr_str().contains("panicked at") && out.stderr_str().lines().any(|l| l.contains("panicked at") && l.contains("/evtx-0.")) {
             // known finding family F28: a panic whose location lies inside the evtx crate's sources (panic=abort)
